@@ -16,9 +16,12 @@ use std::sync::atomic::{AtomicUsize, Ordering};
 use std::sync::{Arc, Mutex};
 use std::time::Duration;
 
+static GUARDS_ALIVE: std::sync::atomic::AtomicI64 = std::sync::atomic::AtomicI64::new(0);
+
 struct Guard(i64, u64);
 impl Drop for Guard {
     fn drop(&mut self) {
+        GUARDS_ALIVE.fetch_sub(1, Ordering::SeqCst);
         if self.1 > 0 {
             // a callback that owns something slow to destroy: whatever must happen "after the callback is gone"
             // has to wait for this
@@ -57,6 +60,8 @@ fn scenario(sc: &Value) -> Value {
     let n = msgs.len();
     verif::set_actor(0);
     verif::emit("h.scenario", &[("id", id), ("routes", n as i64), ("proxies", progs.len() as i64)]);
+    GUARDS_ALIVE.store(0, Ordering::SeqCst);
+    let fds_before = list_fds().len() as i64;
     // stalls: hold a thread for a while at a hook point, so that the other side of a race gets there first
     // (e.g. the router services shutdown's wake-up before the shutdown message has been queued)
     let stalls: std::collections::HashMap<String, u64> = sc["stalls"]
@@ -168,6 +173,7 @@ fn scenario(sc: &Value) -> Value {
                                 xbeam.lock().unwrap()[r as usize - 1] = Some(xr);
                             }
                         } else {
+                            GUARDS_ALIVE.fetch_add(1, Ordering::SeqCst);
                             let guard = Guard(r, dropsleeps.get(r as usize - 1).copied().unwrap_or(0).max(0) as u64);
                             let calls = calls.clone();
                             let cbsleep = cbsleeps.get(r as usize - 1).copied().unwrap_or(0);
@@ -230,6 +236,43 @@ fn scenario(sc: &Value) -> Value {
     } else if !sc["stop"].as_str().map(|s| s == "shutdown").unwrap_or(false) {
         // not a stopping scenario: the router stays alive (its proxy is deliberately leaked)
         std::mem::forget(proxy);
+    } else {
+        // shut down: the proxy (which holds the sending end of the wake-up channel) goes too
+        drop(proxy);
+    }
+    // once the proxy is gone the router has stopped: every callback is dropped, downstream consumers see the
+    // disconnection (the router learns of the drop through its wake-up channel: give it up to 3 s)
+    let mut stopped_after_drop = true;
+    let mut pre_x: Vec<Vec<u64>> = (0..n).map(|_| Vec::new()).collect();
+    if dropproxy && !hang {
+        let t0 = std::time::Instant::now();
+        loop {
+            let cbs = GUARDS_ALIVE.load(Ordering::SeqCst);
+            let live_x = xbeam.lock().unwrap().iter().enumerate().filter(|(i, x)| match x {
+                Some(xr) => {
+                    // drained and disconnected? (what is drained here is kept for the final comparison)
+                    loop {
+                        match xr.try_recv() {
+                            Ok(v) => {
+                                pre_x[*i].push(v);
+                                continue;
+                            },
+                            Err(crossbeam_channel::TryRecvError::Disconnected) => break false,
+                            Err(crossbeam_channel::TryRecvError::Empty) => break true,
+                        }
+                    }
+                },
+                None => false,
+            }).count();
+            if cbs <= 0 && live_x == 0 {
+                break;
+            }
+            if t0.elapsed() > Duration::from_secs(3) {
+                stopped_after_drop = false;
+                break;
+            }
+            std::thread::sleep(Duration::from_millis(5));
+        }
     }
     // let the router thread work off what is queued: up to 5 s for everything that was sent to arrive
     // (a router that has been stopped delivers nothing more; then the short wait is all there is)
@@ -252,7 +295,7 @@ fn scenario(sc: &Value) -> Value {
     let mut routes = Vec::new();
     for r in 1..=n {
         let c = calls[r - 1].lock().unwrap().clone();
-        let mut xgot = Vec::new();
+        let mut xgot = std::mem::take(&mut pre_x[r - 1]);
         let mut xdisc = None;
         if let Some(xr) = xbeam.lock().unwrap()[r - 1].as_ref() {
             loop {
@@ -271,8 +314,21 @@ fn scenario(sc: &Value) -> Value {
         }
         routes.push(json!({"r": r, "calls": c, "xgot": xgot, "xdisc": xdisc}));
     }
+    // a stopped router gives back what it held (its receiver set's epoll descriptor, the routed receivers, the
+    // wake-up channel): the descriptor count returns to where it was (the thread winds down asynchronously: 2 s)
+    let mut fd_delta = 0;
+    if stopping && !hang {
+        let t0 = std::time::Instant::now();
+        loop {
+            fd_delta = list_fds().len() as i64 - fds_before;
+            if fd_delta <= 0 || t0.elapsed() > Duration::from_secs(2) {
+                break;
+            }
+            std::thread::sleep(Duration::from_millis(5));
+        }
+    }
     verif::set_gate_hook(None);
     verif::emit("h.scenario.end", &[("id", id)]);
-    json!({"id": id, "hang": hang, "routes": routes, "after_shutdown": *after_shutdown.lock().unwrap(),
+    json!({"id": id, "hang": hang, "stopped_after_drop": stopped_after_drop, "fd_delta": fd_delta, "routes": routes, "after_shutdown": *after_shutdown.lock().unwrap(),
            "send_errors": send_errors.load(Ordering::SeqCst)})
 }
